@@ -88,10 +88,33 @@ def claims_table() -> str:
     return "\n".join(rows)
 
 
+def properties_block() -> str:
+    claims = json.load(open(os.path.join(ROOT, "vf", "claims.json")))
+    out = []
+    for pid in sorted(claims):
+        ev = {}
+        q = os.path.join(ROOT, "evidence", f"{pid}.json")
+        if os.path.exists(q):
+            ev = json.load(open(q)).get("coverage", {})
+        c = claims[pid]
+        names = [t["name"].split(".")[-1] for t in ev.get("theorems", [])]
+        out.append(f"### {pid}\n")
+        out.append(f"*Deciding technique.* {c['technique']}\n")
+        out.append(f"*What the check establishes.* {c['text']}\n")
+        out.append(f"*Trusted / modelled rather than verified.* {c['note']}\n")
+        if names:
+            out.append(f"*Theorems re-checked on every run ({len(names)} obligations; `lean/SqlglotModel/Properties/{pid}.lean`).* "
+                       + ", ".join(f"`{n}`" for n in names) + "\n")
+        gen = ev.get("generated_tables", {})
+        if gen:
+            out.append("*Regenerated from the source on every run.* " + ", ".join(f"`Generated/{k}.lean` ({v.get('bytes')} bytes)" for k, v in gen.items()) + "\n")
+    return "\n".join(out)
+
+
 def main() -> None:
     path = os.path.join(ROOT, "DESIGN.md")
     s = open(path).read()
-    for name, fn in (("findings", findings_table), ("seeded", seeded_table), ("claims", claims_table)):
+    for name, fn in (("findings", findings_table), ("seeded", seeded_table), ("claims", claims_table), ("properties", properties_block)):
         pat = re.compile(rf"(<!-- BEGIN:{name} -->\n).*?(\n<!-- END:{name} -->)", re.S)
         if pat.search(s):
             s = pat.sub(lambda m: m.group(1) + fn() + m.group(2), s)
